@@ -110,13 +110,29 @@ fn without_calls_fix(wasm: Vec<u8>) -> Vec<u8> {
 }
 
 fn result_of(wasm: &[u8]) -> String {
-    match out::catch(|| walrus::Module::from_buffer(wasm)) {
+    match out::catch(|| {
+        let mut cfg = walrus::ModuleConfig::new();
+        cfg.preserve_code_transform(true);
+        cfg.parse(wasm)
+    }) {
         Err(p) => format!("PANIC:{}", &p[..p.len().min(60)]),
         Ok(Err(e)) => format!("ERR:{}", format!("{:#}", e).replace(['\n', '\t', ' '], "_")),
-        Ok(Ok(mut m)) => match out::catch(|| m.emit_wasm()) {
-            Ok(b) => format!("OK:{}", digest(&b)),
-            Err(p) => format!("EMIT-PANIC:{}", &p[..p.len().min(60)]),
-        },
+        Ok(Ok(mut m)) => {
+            // also what extension code is handed: the code transform (offset pairs, function ranges,
+            // code section start) seen by a custom section
+            let seen = std::sync::Arc::new(std::sync::Mutex::new(crate::offsets::Seen::default()));
+            m.customs.add(crate::offsets::Spy(seen.clone()));
+            match out::catch(|| m.emit_wasm()) {
+                Ok(b) => {
+                    let s = seen.lock().unwrap();
+                    let mut ranges: Vec<(usize, usize, usize)> = s.ranges.iter().map(|r| (r.0.index(), r.1, r.2)).collect();
+                    ranges.sort();
+                    let t = format!("{:?}|{}|{:?}", s.map, s.start, ranges);
+                    format!("OK:{}+T{}", digest(&b), digest(t.as_bytes()))
+                }
+                Err(p) => format!("EMIT-PANIC:{}", &p[..p.len().min(60)]),
+            }
+        }
     }
 }
 
